@@ -1,12 +1,14 @@
 """C02 - writers preserve every cue's start and end instant.
 
-Caption sets (integer microseconds on a carry grid, SCC-lattice floats, runs of equal spans, touching cues, two-layout
-captions) are written by the 7 writers (+ DFXPWriter with inline positioning = 8 configurations) through the public API.
-Timing tokens are extracted from the output by small block splitters (SRT, WebVTT, MicroDVD), lxml (DFXP) and
-html.parser (SAMI).  Property oracle: Coq ok_cues / ok_sami (coq/spec/SpecTimeW.v, requests 201 / 203) - independent
-token parsers (field widths, ranges, integer literals), cue structure per writer, accepted values of a time.
-Correspondence: the tokens predicted by the extracted model (coq/model/TimeWrite.v, requests 200 / 202) equal the
-tokens written.
+Caption sets (integer microseconds on a carry grid, SCC-lattice floats, int / float spellings, runs of equal spans,
+overlapping / unsorted / zero-length cues in EVERY language, node lists with up to 4 layout groups) are written by the 7
+writers in 15 configurations (options varied) through the public API.  Timing tokens of every language are extracted
+from the output by small tolerant block splitters (SRT, WebVTT, MicroDVD), lxml (DFXP) and html.parser (SAMI).  Property
+oracle: Coq ok_cues / ok_sami (coq/spec/SpecTimeW.v, requests 201 / 203) - independent token parsers (field widths,
+ranges, integer literals), accepted values of a time, cue structure as the statement words it (DFXP / MicroDVD exactly one
+cue per caption; SRT / legacy / single-position MAY merge equal spans; WebVTT MAY repeat a cue).  Correspondence: cue
+counts / SAMI sequences predicted by the extracted model (coq/model/TimeWrite.v, requests 200 / 202 / 205) equal what was
+written (a difference is a disagreement); spelling differences are counted.
 """
 import re
 from fractions import Fraction
@@ -134,8 +136,12 @@ def gen_spans(rng, sorted_only, min_ms_len=False):
             if exact(e) > 86399999999:
                 e = s
         run = rng.choice([1, 1, 1, 2, 3, 4])
-        for _ in range(run):
-            spans.append((s, e))
+        for r in range(run):
+            # equal spans may be written 2000000 in one caption and 2000000.0 in the next
+            if r % 2 and isinstance(s, int) and isinstance(e, int) and rng.random() < 0.5:
+                spans.append((float(s), float(e)))
+            else:
+                spans.append((s, e))
         r = rng.random()
         if r < 0.15:
             e2 = e + 1 if exact(e) < 86399999998 else e
@@ -173,13 +179,13 @@ def node_codes(seed, k):
 
 
 def build_set(langs_spans, layout_seed):
-    """returns the caption set and, per caption of the first language, its node codes"""
+    """returns the caption set and, per caption (all languages, in order), its node codes"""
     d = {}
     codes_all = []
     for li, spans in enumerate(langs_spans):
         caps = []
         for k, (s, e) in enumerate(spans):
-            codes = node_codes(layout_seed, k) if li == 0 else [0]
+            codes = node_codes(layout_seed, li * 1000 + k)
             nodes = []
             opened = False
             for j, c in enumerate(codes):
@@ -190,8 +196,7 @@ def build_set(langs_spans, layout_seed):
                     nodes.append(CaptionNode.create_style(opened, {"italics": True}))
                 else:
                     nodes.append(CaptionNode.create_text("text %d %d %d" % (li, k, j), layout_info=LAYOUTS[c]))
-            if li == 0:
-                codes_all.append(codes)
+            codes_all.append(codes)
             caps.append(Caption(s, e, nodes))
         d[LANGS[li]] = CaptionList(caps)
     return CaptionSet(d), codes_all
@@ -212,42 +217,48 @@ def groups_of(codes_lists):
 
 # ---- token extraction ---------------------------------------------------------------------------
 def tokens_srt(out):
-    """first language only"""
-    first = out.split("MULTI-LANGUAGE SRT\n")[0]
+    """one token list per language section (sections are separated by the line MULTI-LANGUAGE SRT)"""
     res = []
-    for block in re.split(r"\n\n+", first.strip("\n")):
-        lines = block.split("\n")
-        if len(lines) < 2 or not lines[0].isdigit():
-            raise ValueError("unexpected SRT block %r" % block)
-        a, arrow, b = lines[1].partition(" --> ")
-        if not arrow:
-            raise ValueError("no arrow in %r" % lines[1])
-        res.append([a, b])
+    for section in re.split(r"MULTI-LANGUAGE SRT\r?\n", out):
+        toks = []
+        body = "\n".join(section.splitlines()).strip("\n")
+        for block in (re.split(r"\n\n+", body) if body else []):
+            lines = block.split("\n")
+            if len(lines) < 2 or not lines[0].isdigit():
+                raise ValueError("unexpected SRT block %r" % block)
+            m = re.match(r"^(\S+)\s+-->\s+(\S+)\s*$", lines[1])
+            if not m:
+                raise ValueError("no timing line in %r" % lines[1])
+            toks.append([m.group(1), m.group(2)])
+        res.append(toks)
     return res
 
 
 def tokens_vtt(out):
-    if not out.startswith("WEBVTT\n\n"):
+    lines = out.splitlines()
+    if not lines or not lines[0].startswith("WEBVTT"):
         raise ValueError("no header")
     res = []
-    for line in out[8:].split("\n"):
+    for line in lines[1:]:
         if "-->" in line:
-            a, _, rest = line.partition(" --> ")
-            b = rest.split(" ")[0]
-            res.append([a, b])
+            m = re.match(r"^(\S+)\s+-->\s+(\S+)", line)
+            if not m:
+                raise ValueError("no timing line in %r" % line)
+            res.append([m.group(1), m.group(2)])
     return res
 
 
-def tokens_mdvd(out, n_first):
+def tokens_mdvd(out):
+    """every cue line of the document"""
     res = []
-    for line in out.split("\n"):
+    for line in out.splitlines():
         if not line:
             continue
         m = re.match(r"\{([^}]*)\}\{([^}]*)\}", line)
         if not m:
             raise ValueError("unexpected MicroDVD line %r" % line)
         res.append([m.group(1), m.group(2)])
-    return res[:n_first]
+    return res
 
 
 TT = "{http://www.w3.org/ns/ttml}"
@@ -301,29 +312,80 @@ def tokens_sami(out):
     return p.events
 
 
+# writer configurations: constructor options and write() options (relativize / fit_to_screen / video size / force= / lang=
+# / default_positioning must not touch the instants)
+def _cfg(make, write=None, only=None):
+    return {"make": make, "write": write or (lambda w, cs: w.write(cs)), "only": only}
+
+
 WRITERS = {
-    "srt": lambda: SRTWriter(),
-    "vtt": lambda: WebVTTWriter(),
-    "mdvd": lambda: MicroDVDWriter(),
-    "dfxp": lambda: DFXPWriter(),
-    "dfxp-inline": lambda: DFXPWriter(write_inline_positioning=True),
-    "legacy": lambda: LegacyDFXPWriter(),
-    "single": lambda: SinglePositioningDFXPWriter(),
+    "srt": _cfg(lambda: SRTWriter()),
+    "srt-opts": _cfg(lambda: SRTWriter(relativize=False, video_width=640, video_height=360, fit_to_screen=False)),
+    "vtt": _cfg(lambda: WebVTTWriter()),
+    "vtt-norel": _cfg(lambda: WebVTTWriter(relativize=False, fit_to_screen=False)),
+    "vtt-video": _cfg(lambda: WebVTTWriter(video_width=1280, video_height=720)),
+    "vtt-lang": _cfg(lambda: WebVTTWriter(), lambda w, cs: w.write(cs, lang=cs.get_languages()[-1]), only="last"),
+    "mdvd": _cfg(lambda: MicroDVDWriter()),
+    "dfxp": _cfg(lambda: DFXPWriter()),
+    "dfxp-inline": _cfg(lambda: DFXPWriter(write_inline_positioning=True)),
+    "dfxp-opts": _cfg(lambda: DFXPWriter(relativize=False, fit_to_screen=False, video_width=640, video_height=360)),
+    "dfxp-force": _cfg(lambda: DFXPWriter(), lambda w, cs: w.write(cs, force=cs.get_languages()[-1]), only="last"),
+    "legacy": _cfg(lambda: LegacyDFXPWriter()),
+    "legacy-force": _cfg(lambda: LegacyDFXPWriter(), lambda w, cs: w.write(cs, force=cs.get_languages()[0]), only="first"),
+    "single": _cfg(lambda: SinglePositioningDFXPWriter()),
+    "single-custom": _cfg(lambda: SinglePositioningDFXPWriter(default_positioning=L2, relativize=False)),
 }
+KINDS.update({"srt-opts": 0, "vtt-norel": 3, "vtt-video": 3, "vtt-lang": 3, "dfxp-opts": 1, "dfxp-force": 1,
+              "legacy-force": 2, "single-custom": 2})
 
 
-def observe(kind, cs, n_first):
-    """Ok(tokens of the first language) / Err"""
+def family(kind):
+    return kind.split("-")[0]
+
+
+def observe(kind, cs, langs_spans):
+    """Ok({language index: token list}) for every language the output is supposed to hold / Err.
+    SRT: every language section; MicroDVD: the lines in order, split by the caption counts (the total must fit);
+    WebVTT: the one language written; DFXP family: every <div>."""
+    cfg = WRITERS[kind]
+    nl = len(langs_spans)
+
     def go():
-        out = WRITERS[kind]().write(cs)
-        if kind == "srt":
-            return tokens_srt(out)
-        if kind == "vtt":
-            return tokens_vtt(out)
-        if kind == "mdvd":
-            return tokens_mdvd(out, n_first)
-        return tokens_dfxp(out)
+        out = cfg["write"](cfg["make"](), cs)
+        fam = family(kind)
+        want = list(range(nl))
+        if cfg["only"] == "last":
+            want = [nl - 1]
+        elif cfg["only"] == "first":
+            want = [0]
+        elif fam == "vtt":
+            want = [0]
+        if fam == "srt":
+            secs = tokens_srt(out)
+            if len(secs) != nl:
+                raise ValueError("SRT output has %d language sections for %d languages" % (len(secs), nl))
+            return {li: secs[li] for li in want}
+        if fam == "vtt":
+            return {want[0]: tokens_vtt(out)}
+        if fam == "mdvd":
+            toks = tokens_mdvd(out)
+            res, i = {}, 0
+            for li in range(nl):
+                n = len(langs_spans[li])
+                res[li] = toks[i:i + n]
+                i += n
+            if i < len(toks):
+                res[nl - 1] = res[nl - 1] + toks[i:]       # surplus lines are not hidden
+            return res
+        d = tokens_dfxp(out)
+        extra = [l for l in d if l not in [LANGS[li] for li in want]]
+        if extra and any(d[l] for l in extra):
+            raise ValueError("unexpected language divisions %r" % extra)
+        return {li: d.get(LANGS[li], []) for li in want}
     return impl.call(go)
+
+
+BAD_WIRE = [-1]
 
 
 def spell_diff(res, rec):
@@ -344,39 +406,35 @@ def run(ctx):
     fill_scc_pool(rng)
     dist["scc_reader_times_in_pool"] = len(SCC_POOL)
     dist["scc_reader_times_non_integer"] = sum(1 for t in SCC_POOL if isinstance(t, float))
-    n = ctx.n(450, 15000)
+    n = ctx.n(300, 10000)
     cases = []
     for i in range(n):
-        nl = rng.choice([1, 1, 1, 2, 3])
+        nl = rng.choice([1, 1, 2, 2, 3])
         two = rng.randrange(1, 10**6) if rng.random() < 0.35 else 0
-        # arbitrary (unsorted, overlapping, runs) in the first language; further languages sorted
-        langs = [gen_spans(rng, sorted_only=(rng.random() < 0.4))]
-        for _ in range(nl - 1):
-            langs.append(gen_spans(rng, sorted_only=True))
+        # every language arbitrary: unsorted, overlapping, runs of equal spans, zero-length, or a sorted timeline
+        langs = [gen_spans(rng, sorted_only=(rng.random() < 0.4)) for _ in range(nl)]
         cases.append((langs, two))
-    # ---- the 7 line / xml writers --------------------------------------------------------------
+    # ---- the line / xml writers, with constructor and write() options varied ---------------------------
+    base_kinds = ["srt", "vtt", "mdvd", "dfxp", "legacy", "single"]
+    opt_kinds = [k for k in WRITERS if k not in base_kinds]
     model_reqs, jobs = [], []
     built = [build_set(langs, two) for (langs, two) in cases]
-    all_groups = groups_of([codes for (_, codes) in built])
-    dist["captions_with_several_layout_groups"] = sum(1 for gl in all_groups for g in gl if g > 1)
-    dist["max_layout_groups"] = max([g for gl in all_groups for g in gl] + [0])
-    for (langs, two), (cs, codes), groups in zip(cases, built, all_groups):
-        for kind in WRITERS:
-            obs = observe(kind, cs, None)
-            for li, spans in enumerate(langs):
-                if kind in ("srt", "vtt", "mdvd") and li > 0:
-                    continue
-                g = groups if (kind == "vtt" and li == 0) else [1] * len(spans)
+    flat_groups = groups_of([codes for (_, codes) in built])
+    dist["captions_with_several_layout_groups"] = sum(1 for gl in flat_groups for g in gl if g > 1)
+    dist["max_layout_groups"] = max([g for gl in flat_groups for g in gl] + [0])
+    for (langs, two), (cs, codes), fg in zip(cases, built, flat_groups):
+        groups, i0 = [], 0
+        for spans in langs:
+            groups.append(fg[i0:i0 + len(spans)])
+            i0 += len(spans)
+        for kind in base_kinds + rng.sample(opt_kinds, 3):
+            obs = observe(kind, cs, langs)
+            want = sorted(obs.v) if isinstance(obs, Ok) else [0]
+            for li in want:
+                spans = langs[li]
+                g = groups[li] if family(kind) == "vtt" else [1] * len(spans)
                 if isinstance(obs, Ok):
-                    if kind in ("srt", "vtt"):
-                        o = obs.v
-                    elif kind == "mdvd":
-                        o = obs.v[:len(spans)]
-                    else:
-                        o = obs.v.get(LANGS[li])
-                        if o is None:
-                            o = []
-                    o = [[x if isinstance(x, str) else "" for x in pair] for pair in o]
+                    o = [[x if isinstance(x, str) else "" for x in pair] for pair in obs.v[li]]
                 else:
                     o = obs
                 jobs.append((kind, li, langs, two, spans, g, o))
@@ -396,24 +454,35 @@ def run(ctx):
     for (kind, li, langs, two, spans, g, o), m, ok in zip(jobs, models, oks):
         res["evaluations"] += 1
         dist[kind] = dist.get(kind, 0) + 1
+        if li > 0:
+            dist["checks_of_a_further_language"] = dist.get("checks_of_a_further_language", 0) + 1
         for (s, e) in spans:
             if exact(s) >= 60 * 10**6 or exact(s) % 1000 != 0 or exact(e) % 1000 != 0:
-                res["nontrivial"].add((kind, s, e))
+                res["nontrivial"].add((family(kind), s, e))
         if isinstance(o, Err) or ok != 1:
             res["violations"].append({
-                "kind": kind + "-tokens", "writer": kind,
-                "what": "%s writer: timing tokens %s do not denote the cues %s (truncated to the format's resolution, "
-                        "one cue per %s)" % (kind, o if not isinstance(o, Err) else "raised " + impl.ERR_NAMES.get(o.code, "?"),
-                                             spans, "run of equal spans" if KINDS[kind] in (0, 2) else "caption"),
+                "kind": family(kind) + "-tokens", "writer": kind,
+                "what": "%s writer: timing tokens %s do not convey the captions %s of language %d (every caption by a cue "
+                        "with its start and end truncated to the format's resolution; %s)" % (
+                            kind, o if not isinstance(o, Err) else "raised " + impl.ERR_NAMES.get(o.code, "?"), spans, li,
+                            {0: "captions with identical times may share a cue", 2: "captions with identical times may share a cue",
+                             3: "one or more cues per caption"}.get(KINDS[kind], "one cue per caption")),
                 "input": [[list(map(repr, se)) for se in sp] for sp in langs], "lang_index": li, "two_layout": two,
                 "observed": o if not isinstance(o, Err) else repr(o), "replay": "write"})
             continue
-        if kind == "mdvd" and any(cls[t][2] == 1 for se in spans for t in se):
+        if m == BAD_WIRE:
+            continue
+        if len(m) != len(o):
+            # the oracle holds ("may merge" / "may split") but the cue structure is not the model's: ties the model
+            res["disagreements"].append({"writer": kind, "what": "cue structure differs from the model (merging / layout "
+                                         "groups); the statement allows both", "spans": [list(map(repr, se)) for se in spans],
+                                         "impl": o, "model": m})
+            continue
+        if family(kind) == "mdvd" and any(cls[t][2] == 1 for se in spans for t in se):
             skipped_model += 1          # float noise may take either admissible frame
             continue
         if m != o:
-            # same denoted values (the oracle holds) but another spelling / another admissible value than the model
-            # predicts: the property does not fix it - recorded, not failing
+            # same structure, same denoted values, another spelling / the other admissible value of a non-integer time
             spell_diff(res, {"writer": kind, "spans": [list(map(repr, se)) for se in spans], "impl": o, "model": m})
     dist["mdvd_two_valued_not_compared_with_model"] = skipped_model
     # ---- SAMI -----------------------------------------------------------------------------------
@@ -424,16 +493,14 @@ def run(ctx):
                   [[(1000000.25, 1999999.75), (2000000.0, 2000999.9999)]]]
     for i in range(ctx.n(500, 15000)):
         nl = rng.choice([1, 1, 2, 3])
-        if nl == 1:
-            langs = [gen_spans(rng, sorted_only=(rng.random() < 0.5))]
-        else:
-            langs = [gen_spans(rng, sorted_only=True, min_ms_len=True) for _ in range(nl)]
-            langs = [sp for sp in langs if sp] or [[(0, 1000)]]
+        langs = [gen_spans(rng, sorted_only=(rng.random() < 0.6)) for _ in range(nl)]
         sami_cases.append(langs)
     reqs_m, reqs_ok, sjobs = [], [], []
     for langs in sami_cases:
         cs, _ = build_set(langs, False)
-        obs = impl.call(lambda: tokens_sami(SAMIWriter().write(cs)))
+        mk = rng.choice([lambda: SAMIWriter(), lambda: SAMIWriter(),
+                         lambda: SAMIWriter(relativize=False, fit_to_screen=False, video_width=640, video_height=360)])
+        obs = impl.call(lambda: tokens_sami(mk().write(cs)))
         for li, spans in enumerate(langs):
             if isinstance(obs, Ok):
                 o = obs.v.get(LANGS[li], [])
@@ -451,8 +518,20 @@ def run(ctx):
         if len(spans) >= 2:
             res["nontrivial"].add(("sami", tuple(spans)))
         dist["sami_touching_pairs"] = dist.get("sami_touching_pairs", 0) + touching
+        timeline = all(exact(a) <= exact(b) for (a, b) in spans) and \
+            all(exact(x[1]) <= exact(y[0]) for x, y in zip(spans, spans[1:]))
+        set_timeline = all(all(exact(a) <= exact(b) for (a, b) in sp) and
+                           all(exact(x[1]) <= exact(y[0]) for x, y in zip(sp, sp[1:])) for sp in langs)
+        if not timeline:
+            dist["sami_languages_not_a_timeline"] = dist.get("sami_languages_not_a_timeline", 0) + 1
         if isinstance(o, Err) or ok != 1:
             shape = "raised" if isinstance(o, Err) else ("float-start" if any("." in x[0] for x in o) else "sync-rule")
+            if shape == "sync-rule" and not set_timeline and sorted(int(x[0]) for x in o if not x[1]) == \
+                    sorted(int(exact(a) // 1000) for (a, b) in spans):
+                # overlapping / unsorted / simultaneous cues in some language of the set: every cue of this language has
+                # its sync at the right ms, but the shared, time-ordered list of syncs cannot convey which blank sync
+                # ends which cue / is put in the wrong place (recorded finding)
+                shape = "non-timeline-cues"
             res["violations"].append({
                 "kind": "sami-" + shape, "writer": "sami",
                 "what": "SAMI writer: syncs %s of language %s do not convey the cues %s (integer ms start, blank sync at "
@@ -470,32 +549,50 @@ def run(ctx):
                         % dist["tokens_differing_from_model_but_accepted"])
     if ctx.thorough:
         sweep(ctx, res)
-    res["rule"] = ("caption sets of 1-3 languages, 1-6 captions: times from the carry grid {0,1,999,1000,999999,10^6,"
-                   "59999999,60*10^6,3599999999,3600*10^6,86399999999,...}+-1, uniform integers below 24 h, float times read by the "
-                   "real SCCReader from generated pop-on streams (drop and non-drop), floats computed like the SCC reader "
-                   "(frames/30[*1001/1000]*10^6), grid +- {1/4,1/3,1/2,3/4}; runs of 1-4 equal spans, "
-                   "near-miss spans sharing only start or end, touching cues, captions with two layouts (WebVTT split). "
-                   "Non-trivial: distinct (writer, start, end) with start >= 1 min or a sub-millisecond part; SAMI lists "
-                   "with >= 2 cues.")
+    res["rule"] = ("caption sets of 1-3 languages, 1-6 captions, EVERY language arbitrary (runs, overlaps, unsorted, "
+                   "zero-length): times from the carry grid {0,1,999,1000,999999,10^6,59999999,60*10^6,3599999999,3600*10^6,"
+                   "86399999999,...}+-1, uniform integers below 24 h, float times read by the real SCCReader from generated "
+                   "pop-on streams (drop and non-drop), floats computed like the SCC reader (frames/30[*1001/1000]*10^6), "
+                   "grid +- {1/4,1/3,1/2,3/4}, int / float spellings of equal spans; runs of 1-4 equal spans, near-miss "
+                   "spans sharing only start or end, touching cues, node / layout sequences with up to 4 layout groups in "
+                   "every language. 15 writer configurations: SRT, WebVTT, MicroDVD, DFXP, legacy DFXP, single-position "
+                   "DFXP with their options varied (relativize, fit_to_screen, video size, write_inline_positioning, "
+                   "force=, lang=, default_positioning). Every language of every document is observed (SRT sections, "
+                   "MicroDVD lines split by the caption counts, surplus lines kept); WebVTT writes one language (declared "
+                   "decision). Oracle: ok_cues - SRT / legacy / single-position MAY merge runs, WebVTT MAY repeat a cue, "
+                   "DFXP / MicroDVD exactly one cue per caption. Structural differences from the model (cue counts, SAMI "
+                   "sequence) are correspondence disagreements, spelling differences are counted. SAMI sets that are not "
+                   "timelines (overlapping / unsorted / repeated cues in a language): own failure-keyed kind, known "
+                   "finding. Non-trivial: distinct (writer, start, end) with start >= 1 min or a sub-millisecond part; SAMI "
+                   "lists with >= 2 cues.")
     res["clauses"] = {
         "theorem": ["shared formatter / WebVTT formatter: printed fields parse (independent parser) to floor(rhe t/1000) ms, "
                     "2/2/2/3 digits, MM<60, SS<60, for all 0 <= t < 24 h; rhe t = t on integers; value accepted by the spec",
-                    "MicroDVD frames and SAMI ms are the floors, printed as integer literals",
-                    "SAMI sync rule over all caption lists", "SRT and legacy/single-position cues = maximal runs",
-                    "DFXP one <p> per caption, MicroDVD one line per caption, WebVTT one cue per layout group with the "
-                    "caption's times (models satisfy ok_cues)"],
-        "correspondence_only": ["binary64 int(t*25.0/1e6) of MicroDVD (model exact; two-valued float inputs counted)",
+                    "MODEL MEETS ORACLE for all five writer kinds: the token lists of the SRT (merge loop), legacy / "
+                    "single-position (merge_concurrent_captions), DFXP, MicroDVD and WebVTT (layout groups) models satisfy "
+                    "the extracted oracle ok_cues on every caption list with times in [0, 24 h) "
+                    "(C02_*_model_meets_oracle); SAMI: C02_sami_write_ok",
+                    "SAMI sync rule over all caption lists (C02_sami_sync_rule, rule stated in spec/)",
+                    "SRT and legacy/single-position cues = maximal runs"],
+        "definitional_or_partial": ["C02_mdvd_frames_floor_partial, C02_sami_start_integer_partial: model and spec are the "
+                                    "same exact-rational floor; content = the decimal printer round trip; the binary64 "
+                                    "computation of the real writers is NOT modelled",
+                                    "C02_vtt_group_count: describes the model's grouping loop (1 + layout changes)",
+                                    "C02_acc_ms_int, C02_acc_frames_int, C02_acc_ms_respects_equality: spec-internal",
+                                    "C02_sami_float_start_refuted, C02_sami_blank_after_ms0_refuted: history (pre-fix "
+                                    "variants of the model)"],
+        "correspondence_only": ["binary64 int(t*25.0/1e6) of MicroDVD and int(t // 1000) of SAMI",
                                 "token extraction through lxml / html.parser / block splitters",
-                                "the real DFXP / WebVTT writers print exactly the cues of the caption-list models "
-                                "(C02_dfxp_one_p_per_caption, C02_vtt_cues_same_times are theorems on the models)",
+                                "that the real writers print the cues of the caption-list models (cue counts compared: "
+                                "a difference is a disagreement)", "writer options do not touch the times",
                                 "SAMI placement of syncs of further languages (bs4 find / insert)"]}
     res["samples"] = [{"spans": [[repr(s), repr(e)] for (s, e) in cases[0][0][0]]}]
     return res
 
 
 def sweep(ctx, res):
-    """thorough: every millisecond / frame boundary neighbourhood for integer times through SRT, WebVTT, MicroDVD"""
-    bad = 0
+    """thorough: 891 sampled seconds (every 97th) x 3 anchors (second start, last microsecond, a frame boundary) x {-1,0,+1}
+    through SRT, WebVTT, MicroDVD - a sample, NOT every frame boundary (DESIGN.md 7/C02 promised more than is done)"""
     for base in range(0, 86400, 97):
         spans = []
         for k in (base * 10**6, base * 10**6 + 999999, base * 10**6 + 40000 * 7):
@@ -504,11 +601,10 @@ def sweep(ctx, res):
                 spans.append((t, t))
         cs, _ = build_set([spans], False)
         for kind in ("srt", "vtt", "mdvd"):
-            o = observe(kind, cs, None)
-            ok = oracle1(201, [KINDS[kind], wire_caps(spans), [1] * len(spans), o.v if isinstance(o, Ok) else []])
+            o = observe(kind, cs, [spans])
+            ok = oracle1(201, [KINDS[kind], wire_caps(spans), [1] * len(spans), o.v[0] if isinstance(o, Ok) else []])
             res["evaluations"] += 1
-            if ok != 1 and kind != "srt":
-                bad += 1
+            if ok != 1:
                 res["violations"].append({"kind": kind + "-tokens", "writer": kind, "what": "sweep: %s" % (spans,),
                                           "input": [[list(map(repr, se)) for se in spans]], "lang_index": 0,
                                           "two_layout": False, "observed": repr(o), "replay": "write"})
@@ -532,15 +628,11 @@ def replay(ctx, rec):
         return oracle1(203, [wire_caps(spans), o]) != 1, o
     kind = rec["writer"]
     cs, codes = build_set(langs, rec.get("two_layout", 0))
-    groups = groups_of([codes])[0]
-    obs = observe(kind, cs, None)
+    fg = groups_of([codes])[0]
+    i0 = sum(len(sp) for sp in langs[:li])
+    obs = observe(kind, cs, langs)
     if isinstance(obs, Err):
         return True, repr(obs)
-    if kind in ("srt", "vtt"):
-        o = obs.v
-    elif kind == "mdvd":
-        o = obs.v[:len(spans)]
-    else:
-        o = obs.v.get(LANGS[li], [])
-    g = groups if (kind == "vtt" and li == 0) else [1] * len(spans)
+    o = obs.v.get(li, [])
+    g = fg[i0:i0 + len(spans)] if family(kind) == "vtt" else [1] * len(spans)
     return oracle1(201, [KINDS[kind], wire_caps(spans), g, o]) != 1, o
